@@ -117,6 +117,10 @@ def one_step_law(ctx, drv, sis, nmax, limit):
         rep = dict(entry=name, stream="one-step-law", n=n, edges=[list(e) for e in G.edges()], state="".join(code), p=str(p))
         try:
             agg = symu.Explorer(40, maxleaves=100000).run(fn)
+        except symu.Budget:
+            ctx.count("law:enumeration-budget-exceeded")
+            ctx.case(rep, nontrivial=False)
+            continue
         except Exception as e:
             ctx.violation("%s raised %s during one-step law enumeration" % (name, type(e).__name__), dict(rep, error=type(e).__name__))
             continue
